@@ -4,7 +4,7 @@ import json
 import os
 
 from checklib import (cargo_build, diff_lines, finish, lean_build, leanchecker, log, run, run_driver,
-                      translator, banned_scan, write_replay, ENV)
+                      translator, banned_scan, write_replay, load_known_findings, ENV)
 
 TRUSTED = [
     "Lean 4 kernel; axioms limited to propext, Classical.choice, Quot.sound (audited per theorem)",
@@ -32,7 +32,23 @@ def pure(ctx, mode, module, what, samples_fn, extra_assumptions, package="pure_h
             ctx.tie_broken.append("harness failed: " + o[-300:])
         else:
             stats = json.load(open(os.path.join(out, "stats.json")))
-            viol = [l for l in open(os.path.join(out, "violations.txt"), encoding="utf-8", errors="replace").read().split("\n") if l]
+            viol_all = [l for l in open(os.path.join(out, "violations.txt"), encoding="utf-8", errors="replace").read().split("\n") if l]
+            # oracle violations the harness attributes to a quirk ("KNOWN <quirk> ...") count as known findings
+            # only if KNOWN_FINDINGS.txt lists that quirk for this property
+            known_open, _ = load_known_findings()
+            listed = {k["quirk"]: k for k in known_open if k.get("property") == ctx.prop and "quirk" in k}
+            viol, hits = [], {}
+            for l in viol_all:
+                parts = l.split(" ", 2)
+                if parts[0] == "KNOWN" and len(parts) == 3 and parts[1] in listed:
+                    hits.setdefault(parts[1], []).append(parts[2])
+                else:
+                    viol.append(l)
+            for q, ex in hits.items():
+                ctx.known.append("KNOWN-FINDING: property=%s quirk=%s %s [observed %d time(s) in this run, e.g. %s]"
+                                 % (ctx.prop, q, listed[q].get("what", ""), len(ex), ex[0][:200]))
+            stats["known_finding_observations"] = {q: len(ex) for q, ex in hits.items()}
+            stats["oracle_violations"] = len(viol)
             if viol:
                 # the implementation itself violates the property's statement on a concrete input
                 path = write_replay(ctx, "oracle", "property %s violated by the implementation (%s)\n" % (ctx.prop, what)
